@@ -85,9 +85,13 @@ type (
 		// unlike singletonExecutions they belong to one row set, so a copy
 		// made for an inner dimension starts with none
 		aggregateResults map[string]any
-		postProcessors   []func() error
-		dual             bool
-		options          *Options
+		// built is the number of post-processors registered while the query
+		// was built (by its derived tables); the ones an execution registers
+		// end with that execution
+		built          int
+		postProcessors []func() error
+		dual           bool
+		options        *Options
 
 		ident string
 	}
@@ -199,6 +203,7 @@ func New(data Map, query string, options ...QueryOption) (_ *Query, err error) {
 	if err != nil {
 		return nil, err
 	}
+	q.built = len(q.postProcessors)
 	return q, nil
 }
 
@@ -217,6 +222,7 @@ func Prepare(data Map, statement sqlparser.Statement, options *Options) (*Query,
 	if err != nil {
 		return nil, err
 	}
+	q.built = len(q.postProcessors)
 	return q, nil
 }
 
@@ -2131,6 +2137,10 @@ func (query *Query) execAndPostProcess() (result any, err error) {
 			result, err = nil, recovered(r)
 		}
 	}()
+	// the post-processors of an earlier execution are done with: they must
+	// neither write into the rows that execution returned nor report its
+	// errors again, and the list must not grow with every execution
+	query.postProcessors = query.postProcessors[:query.built:query.built]
 	rs, err := query.exec()
 	if err != nil {
 		// the background calls started before the failure are not left
